@@ -96,8 +96,8 @@ def put_state(s, rel, st, pkgname):
     elif st == "link-dir":           # ... to a directory
         s["init"]["m/linktargets/d%d/keep.txt" % n] = b"inside the directory a symlink at an output path points to\n"
         s["links"][rel] = os.path.relpath("m/linktargets/d%d" % n, d)
-    elif st == "link-devfull":       # ... to /dev/full: opening succeeds, every write fails with ENOSPC
-        s["links"][rel] = "/dev/full"
+    elif st == "link-devfull":       # ... to a private copy of /dev/full: opening succeeds, every write fails with ENOSPC
+        s["links"][rel] = "@DEVFULL@"
     elif st == "parent-link":        # the directory that holds the output is a symlink to another directory
         s["init"]["m/linktargets/pd%d/keep.txt" % n] = b"inside the real output directory\n"
         s["links"][d] = os.path.relpath("m/linktargets/pd%d" % n, d.rsplit("/", 1)[0])
